@@ -26,7 +26,10 @@ REQ_KINDS = [k for k in kinds.ALL_KINDS if k.startswith('req')]
 
 @st.composite
 def _request_pdu(draw, framing):
-    which = draw(st.sampled_from(['data', 'data', 'any', 'any', 'unassigned']))
+    which = draw(st.sampled_from(['data', 'data', 'any', 'any', 'unassigned', 'raising']))
+    if which == 'raising':
+        # well-formed requests of supported functions whose execution fails inside the server (-> exception 04)
+        return draw(st.sampled_from(['0800630000', '0800050001', '0800160000', '2b0e0500', '2b0e0000', '2b0e04ff'])) 
     if which == 'unassigned':
         fc = draw(st.sampled_from([9, 10, 13, 14, 18, 19, 25, 42, 44, 65, 100, 127]))
         # RTU has no length field: a frame of an unknown function is taken to be 5 bytes long, so only
